@@ -153,7 +153,29 @@ class TmpFile:
         if PLAN.k == 3 and a[0] is None:
             raise Crash()
         return False
+class HeadInPlace:
+    """a write that goes straight into the head file (no temp file): the process can die in the middle of it - all but the last
+    three characters of the text have reached the file, the rest of the file is what it was"""
+    def __init__(self, f):
+        self.f = f
+    def __enter__(self):
+        return self
+    def __getattr__(self, name):
+        return getattr(self.f, name)
+    def write(self, s):
+        if PLAN.k == 2:
+            self.f.write(s[:max(0, len(s) - 3)]); self.f.close()
+            raise Crash()
+        return self.f.write(s)
+    def __exit__(self, *a):
+        self.f.close()
+        return False
+
 def shim_open(path, mode='r', *a, **kw):
+    if PLAN.k is not None and isinstance(path, str) and path.endswith('head.json') and ('+' in mode or 'w' in mode or 'a' in mode):
+        if PLAN.k == 0:
+            raise Crash()
+        return HeadInPlace(real_open(path, mode, *a, **kw))
     if PLAN.k is not None and isinstance(path, str) and path.endswith('.tmp') and 'w' in mode:
         if PLAN.k == 0:
             raise Crash()
@@ -442,7 +464,7 @@ def tuple_op(o):
     o = list(o)
     if o[0] == 'w':
         o[4] = tuple(o[4]) if o[4][0] == 'g' else ('r', list(o[4][1]))
-    if o[0] == 'seek':
+    if o[0] == 'seek' and o[2] != 'told':
         o[2] = list(o[2])
     return tuple(o)
 
@@ -858,13 +880,18 @@ def run_case(hdr, ops=None, rng=None, crash=0.0):
         orc = Oracle(w)
         g = Gen(rng, hdr, w, crash) if ops is None else None
         done, obs = [], []
+        told = {}
         def do(op):
             op = tuple_op(op)
+            if op[0] == 'seek' and op[2] == 'told':           # "where tell() last said this object is" (resolved at run time)
+                op = ('seek', op[1], list(told.get(op[1], [-1, 0])))
             orc.before(op)
             res, delivered = w.step(op)
             orc.after(op, res, delivered)
             done.append(op)
             obs.append(w.observe(res))
+            if op[0] == 'tell' and res[0] == 5:
+                told[op[1]] = res[1]
             if g:
                 g.note(op, res)
             return res
@@ -928,6 +955,14 @@ def corner_cases():
     out.append(('clock-steps-back', dict(mode='binl', file_size=1, total_size=10 ** 6),
                 [('open', A, 500, 0, 0, 0), ('open', B, 500, 1, 1, 0), ('seek', B, [-1, 0]),
                  W(None, 600, 1), rdB, W(None, 550, 2), W(None, 540, 3), rdB, rdB, W(None, 540, 4), W(None, 700, 5)]))
+    # a reader that has caught up with the file still being written re-positions itself with seek(tell()) (or restarts from a head
+    # file); the writer appends to that same file: the appended records are returned
+    for md in ('txt', 'binl', 'json', 'bin'):
+        Wm = lambda ts, i, md=md: ('w', A, ts, ts, ('g', 3 if md == 'json' else 0, i, 3))
+        out.append(('seek-told-position-at-end-of-growing-file-%s' % md, dict(mode=md, file_size=10 ** 4, total_size=10 ** 6),
+                    [('open', A, 100, 0, 0, 0), ('open', B, 100, 1, 1, 0), ('seek', B, [-1, 0]), Wm(110, 1), rdB, rdB, ('tell', B),
+                     ('seek', B, 'told'), Wm(120, 2), Wm(130, 3), rdB, rdB, rdB,
+                     ('tell', B), ('seek', B, 'told'), Wm(140, 4), rdB, rdB]))
     # a reader at the end of a file that is then pruned / deleted while two newer files appear
     out.append(('autorefresh-after-prune', dict(mode='txt', file_size=1, total_size=6),
                 [('open', A, 1, 0, 0, 0), W(10, 2, 0, 2), ('open', B, 20, 1, 1, 0), ('seek', B, [-1, 0]), rdB, rdB,
